@@ -80,6 +80,11 @@ CHECKS = {
    technique="differential property-based testing (proptest): the same generated history under the baseline environment and under a generated subset of text-affecting git settings / invocation contexts; notes, blame and stats compared per commit",
    text="A generated history (plain and unusual file names, new files and directories) is executed twice with pinned dates: in the baseline sandbox, and under 1-8 settings drawn from a 66-entry catalogue of configuration values that change only what git prints (global or local scope), environment forms (GIT_EXTERNAL_DIFF, GIT_DIFF_OPTS, GIT_PAGER) and an invocation context (root, sub-directory, -C <abs>, chained -C). Attestation sets per commit, `blame --json` per file and tip, and `stats --json` per commit must equal the baseline's.",
    note="Settings that legitimately change history or blame are excluded by construction. Linked worktrees are not generated. Twins whose git state diverges are counted, not judged."),
+ "C06": dict(
+   level="exploration", design="DESIGN.md §2 C06",
+   technique="differential property-based testing (proptest): generated git command sequences run against real git and through the git-ai wrapper in twin sandboxes; exit status, stdout and a repository-state digest compared after every command",
+   text="Twin sandboxes (real git / wrapper) with aliases, a bare remote and a generated subset of user hooks execute the same 5-25 steps: git command lines from ~170 templates (porcelain, plumbing, global options, aliases incl. recursive and shell, remote operations, invalid invocations) and human/agent edits (agent checkpoints only behind the wrapper). After every command exit status, stdout (byte-wise) and the digest of HEAD, refs outside git-ai's namespaces, index, status, working-tree bytes, stash, in-progress state, user-hook log, remote refs, local config and hook directory must be equal.",
+   note="stderr is not compared (outside the property); no pty, so tty-only output never occurs; commands that enumerate every ref/object, `ls-remote`, and blame of uncommitted lines (prints the time of day) are not generated."),
 }
 
 NOT_YET = "check not built yet (work in progress; see DESIGN.md section 2 for the plan)"
